@@ -7,6 +7,8 @@ import PM.Transform
 import Proofs.StepToks
 import Proofs.StepMap
 import Proofs.StepMapLeft
+import Proofs.StepMapHist
+import Props.C08
 namespace PM.C03
 open PM
 
@@ -620,5 +622,437 @@ example :
     let m := (Step.replace 3 3 ⟨[.text [120, 121] []], 0, 0⟩ false).getMap
     m.map 3 (-1) = 3 ∧ m.map 3 1 = 5 ∧ m.map 2 (-1) = 2 ∧ m.map 2 1 = 2 ∧ m.map 4 (-1) = 6 ∧ m.map 4 1 = 6 := by
   decide
+
+/-! ### the left side (`assoc = -1`) for every step kind and along a whole history -/
+
+/-- the part of `AroundOK` the left side needs: a well-formed slice, `insert ≤ size`, the gap inside
+    the step's range.  (The degenerate empty gap of `replaceAround_map_faithful` is harmless here:
+    with `assoc = -1` a position at the start of an empty range stays before the inserted content.) -/
+def AroundWF : Step → Prop
+  | .replaceAround f t gf gt sl ins _ =>
+    sl.wf = true ∧ (ins : Int) ≤ sl.size ∧ (f ≤ gf ∧ gf ≤ gt ∧ gt ≤ t)
+  | _ => True
+
+theorem AroundOK.toWF {st : Step} (h : AroundOK st) : AroundWF st := by
+  cases st <;> first | trivial | exact ⟨h.1, h.2.1, h.2.2.1⟩
+
+/-- **every step kind, every position, left side**: a position `0 < p ≤ size` whose *preceding*
+    token (`p − 1`) lies outside the changed ranges of the step's map is mapped with `assoc = -1` to
+    a position `0 < q ≤ size'` of the new document, and the token before `q` has the same structure
+    and text as the token before `p` — the same token for replace and replace-around steps -/
+theorem mapped_position_every_step_left (S : Schema) (doc doc' : Node) (st : Step) (hok : AroundWF st)
+    (h : S.apply st doc = .ok doc') (p : Nat) (hp0 : 0 < p) (hp : p ≤ fsize doc.kids)
+    (hout : outside st.getMap ((p : Int) - 1)) :
+    0 < st.getMap.map p (-1) ∧ (st.getMap.map p (-1)).toNat ≤ fsize doc'.kids ∧
+    ((ftoks doc'.kids)[(st.getMap.map p (-1)).toNat - 1]?).map Tok.shape =
+      ((ftoks doc.kids)[p - 1]?).map Tok.shape ∧
+    (IsReplaceFamily st →
+      (ftoks doc'.kids)[(st.getMap.map p (-1)).toNat - 1]? = (ftoks doc.kids)[p - 1]?) := by
+  have fam : 0 < st.getMap.map p (-1) →
+      (ftoks doc'.kids)[(st.getMap.map p (-1)).toNat - 1]? = (ftoks doc.kids)[p - 1]? →
+      0 < st.getMap.map p (-1) ∧ (st.getMap.map p (-1)).toNat ≤ fsize doc'.kids ∧
+      ((ftoks doc'.kids)[(st.getMap.map p (-1)).toNat - 1]?).map Tok.shape =
+        ((ftoks doc.kids)[p - 1]?).map Tok.shape ∧
+      (IsReplaceFamily st →
+        (ftoks doc'.kids)[(st.getMap.map p (-1)).toNat - 1]? = (ftoks doc.kids)[p - 1]?) := by
+    intro h0 key
+    have hsome : (ftoks doc.kids)[p - 1]? = some ((ftoks doc.kids)[p - 1]'(by rw [ftoks_length]; omega)) :=
+      List.getElem?_eq_getElem _
+    have hq : (st.getMap.map p (-1)).toNat - 1 < (ftoks doc'.kids).length := by
+      rcases Nat.lt_or_ge ((st.getMap.map p (-1)).toNat - 1) (ftoks doc'.kids).length with h' | h'
+      · exact h'
+      · rw [List.getElem?_eq_none h', hsome] at key; simp at key
+    rw [ftoks_length] at hq
+    exact ⟨h0, by omega, by rw [key], fun _ => key⟩
+  have mk : (∀ f t sl b, st ≠ .replace f t sl b) → (∀ f t gf gt sl i b, st ≠ .replaceAround f t gf gt sl i b) →
+      0 < st.getMap.map p (-1) ∧ (st.getMap.map p (-1)).toNat ≤ fsize doc'.kids ∧
+      ((ftoks doc'.kids)[(st.getMap.map p (-1)).toNat - 1]?).map Tok.shape =
+        ((ftoks doc.kids)[p - 1]?).map Tok.shape := by
+    intro hk hk'
+    obtain ⟨_, hsh, hmap⟩ := markup_steps_empty_map S doc doc' st hk hk' h
+    have hlen : fsize doc'.kids = fsize doc.kids := by
+      have := congrArg List.length hsh
+      simpa [ftoks_length] using this
+    rw [hmap p (-1), Int.toNat_natCast]
+    refine ⟨by omega, by omega, ?_⟩
+    rw [← List.getElem?_map, ← List.getElem?_map, hsh]
+  cases st with
+  | replace f t sl b =>
+    have hp' : p ≤ f ∨ t < p := by
+      have := hout ((f : Int), (t : Int) - f, sl.size) (by simp [Step.getMap])
+      simp only at this
+      omega
+    obtain ⟨h0, key⟩ := mapped_position_same_content_left S doc doc' f t sl b h p hp0 hp' hp
+    exact fam h0 key
+  | replaceAround f t gf gt sl ins b =>
+    obtain ⟨hwf, hins, hg⟩ := hok
+    have hp' : p ≤ f ∨ (gf < p ∧ p ≤ gt) ∨ t < p := by
+      have a := hout ((f : Int), (gf : Int) - f, (ins : Int)) (by simp [Step.getMap])
+      have b := hout ((gt : Int), (t : Int) - gt, sl.size - ins) (by simp [Step.getMap])
+      simp only at a b
+      omega
+    obtain ⟨h0, key⟩ := mapped_position_same_content_around_left S doc doc' f t gf gt sl ins b hwf hins hg h
+      p hp0 hp' hp
+    exact fam h0 key
+  | addMark f t m =>
+    have m := mk (by intros; simp) (by intros; simp)
+    exact ⟨m.1, m.2.1, m.2.2, fun hc => hc.elim⟩
+  | removeMark f t m =>
+    have m := mk (by intros; simp) (by intros; simp)
+    exact ⟨m.1, m.2.1, m.2.2, fun hc => hc.elim⟩
+  | addNodeMark pos m =>
+    have m := mk (by intros; simp) (by intros; simp)
+    exact ⟨m.1, m.2.1, m.2.2, fun hc => hc.elim⟩
+  | removeNodeMark pos m =>
+    have m := mk (by intros; simp) (by intros; simp)
+    exact ⟨m.1, m.2.1, m.2.2, fun hc => hc.elim⟩
+  | attr pos n v =>
+    have m := mk (by intros; simp) (by intros; simp)
+    exact ⟨m.1, m.2.1, m.2.2, fun hc => hc.elim⟩
+  | docAttr n v =>
+    have m := mk (by intros; simp) (by intros; simp)
+    exact ⟨m.1, m.2.1, m.2.2, fun hc => hc.elim⟩
+
+/-- the token *before* the position stays outside the changed ranges of every map of the history,
+    the position followed along it with `assoc = -1` -/
+def OutsideAllL : List StepMap → Int → Prop
+  | [], _ => True
+  | m :: ms, p => outside m (p - 1) ∧ OutsideAllL ms (m.map p (-1))
+
+/-- `mapAll` is the fold of PM/MapFold.lean for `assoc = 1` -/
+theorem mapAll_eq_mapFold (ms : List StepMap) (p : Int) : mapAll ms p = mapFold ms 1 p := rfl
+
+/-- **`Transform.mapping` maps by folding the step maps with the asked side — both sides**
+    (`Mapping.map` of a mapping over the recorded maps, no mirrors) -/
+theorem mapping_map_eq_mapFold (ms : List StepMap) (p a : Int) :
+    (Mapping.ofMaps ms).map p a = some (mapFold ms a p) := ofMaps_map ms p a
+
+/-- … and so does `Mapping.map_result`: the position is the same fold, the deletion info the bits
+    gathered along the way -/
+theorem mapping_mapResult_eq_folds (ms : List StepMap) (p a : Int) :
+    (Mapping.ofMaps ms).mapResult p a = some { pos := mapFold ms a p, delInfo := delFold ms a p 0 } :=
+  ofMaps_mapResult ms p a
+
+/-- what is claimed of one stretch of history on the left side: the token before the mapped position -/
+def SameBefore (d d' : Node) (steps : List Step) (p : Nat) (q : Int) : Prop :=
+  0 < q ∧ q.toNat ≤ fsize d'.kids ∧
+  ((ftoks d'.kids)[q.toNat - 1]?).map Tok.shape = ((ftoks d.kids)[p - 1]?).map Tok.shape ∧
+  ((∀ st ∈ steps, IsReplaceFamily st) → (ftoks d'.kids)[q.toNat - 1]? = (ftoks d.kids)[p - 1]?)
+
+theorem run_same_before (S : Schema) : ∀ (sts : List Step) (tr : Tr), (∀ st ∈ sts, AroundWF st) →
+    ∃ new : List Step, (tr.run S sts).steps = tr.steps ++ new ∧
+      (tr.run S sts).maps = tr.maps ++ new.map Step.getMap ∧
+      ∀ p : Nat, 0 < p → p ≤ fsize tr.doc.kids → OutsideAllL (new.map Step.getMap) p →
+        SameBefore tr.doc (tr.run S sts).doc new p (mapFold (new.map Step.getMap) (-1) p)
+  | [], tr, _ => by
+    refine ⟨[], by simp [Tr.run], by simp [Tr.run], fun p hp0 hp _ => ?_⟩
+    simp only [Tr.run, List.foldl_nil, List.map_nil, mapFold_nil, SameBefore, Int.toNat_natCast]
+    exact ⟨by omega, hp, trivial, fun _ => trivial⟩
+  | st :: sts, tr, hok => by
+    have hok' : ∀ s ∈ sts, AroundWF s := fun s hs => hok s (List.mem_cons_of_mem _ hs)
+    have hrun : tr.run S (st :: sts) = (tr.maybeStep S st).run S sts := by simp [Tr.run]
+    rw [hrun]
+    cases happ : S.apply st tr.doc with
+    | error e =>
+      have : tr.maybeStep S st = tr := by simp [Tr.maybeStep, happ]
+      rw [this]
+      exact run_same_before S sts tr hok'
+    | ok d1 =>
+      have h1 : tr.maybeStep S st = tr.addStep st d1 := by simp [Tr.maybeStep, happ]
+      rw [h1]
+      obtain ⟨new, e1, e2, e3⟩ := run_same_before S sts (tr.addStep st d1) hok'
+      refine ⟨st :: new, by simpa [Tr.addStep] using e1, by simpa [Tr.addStep] using e2,
+        fun p hp0 hp hout => ?_⟩
+      simp only [List.map_cons, OutsideAllL] at hout
+      obtain ⟨ho1, ho2⟩ := hout
+      obtain ⟨s1, s2, s3, s4⟩ := mapped_position_every_step_left S tr.doc d1 st (hok st List.mem_cons_self)
+        happ p hp0 hp ho1
+      have hq : ((st.getMap.map p (-1)).toNat : Int) = st.getMap.map p (-1) := Int.toNat_of_nonneg (by omega)
+      have ih := e3 (st.getMap.map p (-1)).toNat (by omega) (by simpa [Tr.addStep] using s2)
+        (by rw [hq]; exact ho2)
+      rw [hq] at ih
+      obtain ⟨i1, i2, i3, i4⟩ := ih
+      simp only [Tr.addStep] at i3 i4
+      rw [List.map_cons, mapFold_cons]
+      refine ⟨i1, i2, i3.trans s3, fun hall => ?_⟩
+      exact (i4 (fun s hs => hall s (List.mem_cons_of_mem _ hs))).trans (s4 (hall st List.mem_cons_self))
+
+/-- **Transform level, left side**: over any list of attempted steps, the transform's mapping sends
+    (with `assoc = -1`) a position whose preceding token stays outside every recorded step's changed
+    ranges to a position `0 < q ≤ size` of the final document with a token of the same structure and
+    text before it — the same token when only replace / replace-around steps were recorded -/
+theorem transform_mapped_position_same_content_left (S : Schema) (doc : Node) (sts : List Step)
+    (hok : ∀ st ∈ sts, AroundWF st) (p : Nat) (hp0 : 0 < p) (hp : p ≤ fsize doc.kids)
+    (hout : OutsideAllL ((Tr.init doc).run S sts).maps p) :
+    ∃ q : Nat, 0 < q ∧ (Mapping.ofMaps ((Tr.init doc).run S sts).maps).map p (-1) = some (q : Int) ∧
+      q ≤ fsize ((Tr.init doc).run S sts).doc.kids ∧
+      ((ftoks ((Tr.init doc).run S sts).doc.kids)[q - 1]?).map Tok.shape =
+        ((ftoks doc.kids)[p - 1]?).map Tok.shape ∧
+      ((∀ st ∈ ((Tr.init doc).run S sts).steps, IsReplaceFamily st) →
+        (ftoks ((Tr.init doc).run S sts).doc.kids)[q - 1]? = (ftoks doc.kids)[p - 1]?) := by
+  obtain ⟨new, e1, e2, e3⟩ := run_same_before S sts (Tr.init doc) hok
+  replace e1 : ((Tr.init doc).run S sts).steps = new := by simpa [Tr.init] using e1
+  replace e2 : ((Tr.init doc).run S sts).maps = new.map Step.getMap := by simpa [Tr.init] using e2
+  rw [e2] at hout ⊢
+  rw [e1]
+  obtain ⟨s1, s2, s3, s4⟩ := e3 p hp0 hp hout
+  refine ⟨(mapFold (new.map Step.getMap) (-1) p).toNat, by omega, ?_, s2, s3, s4⟩
+  rw [mapping_map_eq_mapFold, Int.toNat_of_nonneg (by omega)]
+
+/-! ### the `deleted` flag of `map_result` -/
+
+theorem wf_iff_rwf : ∀ (rs : List Range) (lo : Int), C08.WF lo rs ↔ RWF lo rs
+  | [], _ => Iff.rfl
+  | r :: rest, lo => by simp only [C08.WF, RWF, wf_iff_rwf rest]
+
+/-- `coversSide` is the negation of `outside` for the token on the asked side -/
+theorem covers_false_iff_outside (m : StepMap) (a p : Int) :
+    m.coversSide a p = false ↔ outside m (sideTok a p) := by
+  simp only [StepMap.coversSide, List.any_eq_false, Bool.and_eq_true, decide_eq_true_eq, outside]
+  constructor
+  · intro h r hr; have := h r hr; omega
+  · intro h r hr; have := h r hr; omega
+
+/-- **one map, both sides** (a stored, sorted map): `map_result(pos, assoc).deleted` is true iff a
+    replaced range covers the token on the asked side of `pos` — the token before it for
+    `assoc < 0`, the token after it otherwise.  For the right side no range may end where a range
+    with a non-empty old side starts (`noTouch`); `deleted_right_needs_noTouch` below shows why.
+    (`C08.deleted_spec` is the same statement in range coordinates.) -/
+theorem deleted_iff_covered (m : StepMap) (hinv : m.inverted = false) (hwf : C08.WF 0 m.ranges)
+    (p a : Int) (hside : a < 0 ∨ m.noTouch = true) :
+    (m.mapResult p a).deleted = true ↔ ¬ outside m (sideTok a p) := by
+  rw [StepMap.deleted_eq_covers m hinv ((wf_iff_rwf _ _).1 hwf) p a hside, ← covers_false_iff_outside]
+  cases m.coversSide a p <;> simp
+
+/-- the map of a successfully applied step is stored (not inverted) and sorted -/
+theorem step_map_wf (S : Schema) (doc doc' : Node) (st : Step) (hok : AroundWF st)
+    (h : S.apply st doc = .ok doc') : st.getMap.inverted = false ∧ C08.WF 0 st.getMap.ranges := by
+  cases st with
+  | replace f t sl b =>
+    obtain ⟨_, hft, _, hwf⟩ := apply_replace_facts S doc doc' f t sl b h
+    have hs0 : 0 ≤ sl.size := by have := Slice.toks_length_int sl hwf; omega
+    exact ⟨rfl, by simp only [Step.getMap, C08.WF]; exact ⟨by omega, by omega, hs0, trivial⟩⟩
+  | replaceAround f t gf gt sl ins b =>
+    obtain ⟨hwf, hins, hg1, hg2, hg3⟩ := hok
+    exact ⟨rfl, by
+      simp only [Step.getMap, C08.WF]
+      exact ⟨by omega, by omega, by omega, by omega, by omega, by omega, trivial⟩⟩
+  | _ => exact ⟨rfl, trivial⟩
+
+/-- the gap of a replace-around step is not empty, or nothing is deleted after it: the step's two
+    ranges do not touch in the way that hides a deletion from the right side -/
+def GapSep : Step → Prop
+  | .replaceAround _ t gf gt _ _ _ => gf < gt ∨ gt = t
+  | _ => True
+
+theorem step_noTouch (st : Step) (hok : AroundWF st) (hsep : GapSep st) : st.getMap.noTouch = true := by
+  cases st with
+  | replace f t sl b =>
+    simp only [Step.getMap, StepMap.noTouch, List.all_cons, List.all_nil, Bool.and_true,
+      Bool.or_eq_true, decide_eq_true_eq]
+    omega
+  | replaceAround f t gf gt sl ins b =>
+    obtain ⟨_, _, hg1, hg2, hg3⟩ := hok
+    simp only [GapSep] at hsep
+    simp only [Step.getMap, StepMap.noTouch, List.all_cons, List.all_nil, Bool.and_true,
+      Bool.and_eq_true, Bool.or_eq_true, decide_eq_true_eq]
+    omega
+  | _ => rfl
+
+/-- **one step, both sides**: for a successfully applied step of any kind,
+    `get_map().map_result(pos, assoc).deleted` is true iff the token on the asked side of `pos` lies
+    in a range the step replaced (never, for the six markup kinds) -/
+theorem step_deleted_iff (S : Schema) (doc doc' : Node) (st : Step) (hok : AroundWF st)
+    (h : S.apply st doc = .ok doc') (p a : Int) (hside : a < 0 ∨ GapSep st) :
+    (st.getMap.mapResult p a).deleted = true ↔ ¬ outside st.getMap (sideTok a p) := by
+  obtain ⟨hinv, hwf⟩ := step_map_wf S doc doc' st hok h
+  exact deleted_iff_covered _ hinv hwf p a (hside.imp id (step_noTouch st hok))
+
+/-- the right-side guard is needed: a replace-around step with an empty gap (`gapFrom = gapTo`)
+    that deletes content after the gap has the ranges `(2, 1, 0)` and `(3, 2, 0)`; position 3 is
+    caught at the *end* of the first range, so `map_result(3, 1).deleted` is false although the
+    token after position 3 is deleted -/
+theorem deleted_right_needs_noTouch :
+    let m := (Step.replaceAround 2 5 3 3 ⟨[], 0, 0⟩ 0 false).getMap
+    C08.WF 0 m.ranges ∧ m.noTouch = false ∧ ¬ outside m (sideTok 1 3) ∧ (m.mapResult 3 1).deleted = false := by
+  refine ⟨by simp [Step.getMap, C08.WF, Slice.size, fsize], by decide, ?_, by decide⟩
+  intro h
+  have := h (3, 2, 0) (by simp [Step.getMap, Slice.size])
+  simp [sideTok] at this
+
+/-- `coveredFold` on the left side is the negation of `OutsideAllL` -/
+theorem coveredFold_left_false_iff : ∀ (ms : List StepMap) (p : Int),
+    coveredFold ms (-1) p = false ↔ OutsideAllL ms p
+  | [], _ => by simp [coveredFold, OutsideAllL]
+  | m :: ms, p => by
+    rw [coveredFold, Bool.or_eq_false_iff, covers_false_iff_outside, coveredFold_left_false_iff ms]
+    simp [OutsideAllL, sideTok]
+
+/-- … and on the right side of `OutsideAll` -/
+theorem coveredFold_right_false_iff : ∀ (ms : List StepMap) (p : Int),
+    coveredFold ms 1 p = false ↔ OutsideAll ms p
+  | [], _ => by simp [coveredFold, OutsideAll]
+  | m :: ms, p => by
+    rw [coveredFold, Bool.or_eq_false_iff, covers_false_iff_outside, coveredFold_right_false_iff ms]
+    simp [OutsideAll, sideTok]
+
+/-- **a whole mapping, both sides**: `Mapping.map_result(pos, assoc)` of a mapping over stored,
+    sorted maps returns the folded position, and its `deleted` flag is true iff for some map of the
+    history the token on the asked side of the position — mapped along to that map — lies in a range
+    that map replaced -/
+theorem mapping_deleted_iff_covered (ms : List StepMap)
+    (hms : ∀ m ∈ ms, m.inverted = false ∧ C08.WF 0 m.ranges) (p a : Int)
+    (hside : a < 0 ∨ ∀ m ∈ ms, m.noTouch = true) :
+    ∃ r, (Mapping.ofMaps ms).mapResult p a = some r ∧ r.pos = mapFold ms a p ∧
+      r.deleted = coveredFold ms a p := by
+  refine ⟨_, ofMaps_mapResult ms p a, rfl, ?_⟩
+  have h := ofMaps_deleted ms p a
+  rw [ofMaps_mapResult, Option.map_some, Option.some.injEq] at h
+  rw [h]
+  exact deletedFold_eq_covered ms (fun m hm => ⟨(hms m hm).1, (wf_iff_rwf _ _).1 (hms m hm).2⟩) a p hside
+
+/-- every map recorded by a run has a property that every successfully applied step's map has -/
+theorem run_maps_all (S : Schema) (P : StepMap → Prop) : ∀ (sts : List Step) (tr : Tr),
+    (∀ st ∈ sts, ∀ d d', S.apply st d = .ok d' → P st.getMap) → (∀ m ∈ tr.maps, P m) →
+    ∀ m ∈ (tr.run S sts).maps, P m
+  | [], tr, _, h0 => by simpa [Tr.run] using h0
+  | st :: sts, tr, hst, h0 => by
+    have hrun : tr.run S (st :: sts) = (tr.maybeStep S st).run S sts := by simp [Tr.run]
+    rw [hrun]
+    refine run_maps_all S P sts _ (fun s hs => hst s (List.mem_cons_of_mem _ hs)) ?_
+    unfold Tr.maybeStep
+    split
+    · next d hd =>
+      intro m hm
+      simp only [Tr.addStep, List.mem_append, List.mem_singleton] at hm
+      rcases hm with hm | rfl
+      · exact h0 m hm
+      · exact hst st List.mem_cons_self _ _ hd
+    · exact h0
+
+/-- the maps a transform records are stored and sorted -/
+theorem transform_maps_wf (S : Schema) (doc : Node) (sts : List Step) (hok : ∀ st ∈ sts, AroundWF st) :
+    ∀ m ∈ ((Tr.init doc).run S sts).maps, m.inverted = false ∧ C08.WF 0 m.ranges :=
+  run_maps_all S _ sts (Tr.init doc) (fun st hst d d' h => step_map_wf S d d' st (hok st hst) h)
+    (by simp [Tr.init])
+
+/-- **Transform level, the flag**: `tr.mapping.map_result(pos, assoc)` returns the position folded
+    through the recorded maps with the asked side, and `.deleted` is true iff some recorded step
+    replaced the token on the asked side of the position as mapped along to that step.  By
+    `coveredFold_left_false_iff` / `coveredFold_right_false_iff` a false flag is exactly the
+    hypothesis `OutsideAllL` / `OutsideAll` of the same-content theorems. -/
+theorem transform_deleted_iff_covered (S : Schema) (doc : Node) (sts : List Step)
+    (hok : ∀ st ∈ sts, AroundWF st) (p a : Int) (hside : a < 0 ∨ ∀ st ∈ sts, GapSep st) :
+    ∃ r, (Mapping.ofMaps ((Tr.init doc).run S sts).maps).mapResult p a = some r ∧
+      r.pos = mapFold ((Tr.init doc).run S sts).maps a p ∧
+      r.deleted = coveredFold ((Tr.init doc).run S sts).maps a p := by
+  refine mapping_deleted_iff_covered _ (transform_maps_wf S doc sts hok) p a ?_
+  rcases hside with h | h
+  · exact .inl h
+  · exact .inr (run_maps_all S _ sts (Tr.init doc)
+      (fun st hst d d' _ => step_noTouch st (hok st hst) (h st hst)) (by simp [Tr.init]))
+
+/-- **not reported deleted on the left ⇒ the token before is kept**: if `tr.mapping.map_result(p, -1)`
+    does not report `deleted`, the token before the mapped position is the token that was before `p`
+    (same structure and text; the same token when only replace-family steps were recorded) -/
+theorem transform_not_deleted_left_same_content (S : Schema) (doc : Node) (sts : List Step)
+    (hok : ∀ st ∈ sts, AroundWF st) (p : Nat) (hp0 : 0 < p) (hp : p ≤ fsize doc.kids)
+    (hnd : ((Mapping.ofMaps ((Tr.init doc).run S sts).maps).mapResult p (-1)).map MapResult.deleted
+      = some false) :
+    ∃ q : Nat, 0 < q ∧ (Mapping.ofMaps ((Tr.init doc).run S sts).maps).map p (-1) = some (q : Int) ∧
+      q ≤ fsize ((Tr.init doc).run S sts).doc.kids ∧
+      ((ftoks ((Tr.init doc).run S sts).doc.kids)[q - 1]?).map Tok.shape =
+        ((ftoks doc.kids)[p - 1]?).map Tok.shape ∧
+      ((∀ st ∈ ((Tr.init doc).run S sts).steps, IsReplaceFamily st) →
+        (ftoks ((Tr.init doc).run S sts).doc.kids)[q - 1]? = (ftoks doc.kids)[p - 1]?) := by
+  obtain ⟨r, hr, _, hdel⟩ := transform_deleted_iff_covered S doc sts hok p (-1) (.inl (by decide))
+  rw [hr, Option.map_some, Option.some.injEq, hdel] at hnd
+  exact transform_mapped_position_same_content_left S doc sts hok p hp0 hp
+    ((coveredFold_left_false_iff _ _).1 hnd)
+
+/-- **not reported deleted on the right ⇒ the token after is kept** (with the side conditions of the
+    right-side theorems) -/
+theorem transform_not_deleted_right_same_content (S : Schema) (doc : Node) (sts : List Step)
+    (hok : ∀ st ∈ sts, AroundOK st) (hsep : ∀ st ∈ sts, GapSep st) (p : Nat) (hp : p ≤ fsize doc.kids)
+    (hnd : ((Mapping.ofMaps ((Tr.init doc).run S sts).maps).mapResult p 1).map MapResult.deleted
+      = some false) :
+    ∃ q : Nat, (Mapping.ofMaps ((Tr.init doc).run S sts).maps).map p 1 = some (q : Int) ∧
+      q ≤ fsize ((Tr.init doc).run S sts).doc.kids ∧
+      (((ftoks ((Tr.init doc).run S sts).doc.kids).drop q).head?).map Tok.shape =
+        (((ftoks doc.kids).drop p).head?).map Tok.shape ∧
+      ((∀ st ∈ ((Tr.init doc).run S sts).steps, IsReplaceFamily st) →
+        ((ftoks ((Tr.init doc).run S sts).doc.kids).drop q).head? = ((ftoks doc.kids).drop p).head?) := by
+  obtain ⟨r, hr, _, hdel⟩ := transform_deleted_iff_covered S doc sts (fun st hst => (hok st hst).toWF) p 1
+    (.inr hsep)
+  rw [hr, Option.map_some, Option.some.injEq, hdel] at hnd
+  exact transform_mapped_position_same_content S doc sts hok p hp
+    ((coveredFold_right_false_iff _ _).1 hnd)
+
+/-! ### monotonicity through histories -/
+
+/-- **a whole mapping is monotone** (same association side; from `C08.map_mono` map by map) -/
+theorem mapping_map_mono (ms : List StepMap) (hwf : ∀ m ∈ ms, C08.WF 0 m.ranges) (a p q : Int)
+    (hpq : p ≤ q) : mapFold ms a p ≤ mapFold ms a q := by
+  induction ms generalizing p q with
+  | nil => exact hpq
+  | cons m ms ih =>
+    rw [mapFold_cons, mapFold_cons]
+    exact ih (fun x hx => hwf x (List.mem_cons_of_mem _ hx)) _ _
+      (C08.map_mono m (hwf m List.mem_cons_self) p q a hpq)
+
+/-- **the left image never lies right of the right image**, map by map and for a whole mapping -/
+theorem mapping_left_le_right (ms : List StepMap) (hwf : ∀ m ∈ ms, C08.WF 0 m.ranges) (p : Int) :
+    mapFold ms (-1) p ≤ mapFold ms 1 p :=
+  mapFold_assoc_mono ms (fun m hm => (wf_iff_rwf _ _).1 (hwf m hm)) (-1) 1 p (by decide)
+
+theorem stepMap_left_le_right (m : StepMap) (hwf : C08.WF 0 m.ranges) (p : Int) :
+    m.map p (-1) ≤ m.map p 1 :=
+  StepMap.map_assoc_mono m ((wf_iff_rwf _ _).1 hwf) p (-1) 1 (by decide)
+
+/-- **Transform level**: `tr.mapping.map` is monotone in the position for either side, and the
+    `assoc = -1` image of a position is never right of its `assoc = 1` image -/
+theorem transform_mapping_mono (S : Schema) (doc : Node) (sts : List Step)
+    (hok : ∀ st ∈ sts, AroundWF st) (p q : Int) (hpq : p ≤ q) (a : Int) :
+    ∃ p' q' l r : Int,
+      (Mapping.ofMaps ((Tr.init doc).run S sts).maps).map p a = some p' ∧
+      (Mapping.ofMaps ((Tr.init doc).run S sts).maps).map q a = some q' ∧ p' ≤ q' ∧
+      (Mapping.ofMaps ((Tr.init doc).run S sts).maps).map p (-1) = some l ∧
+      (Mapping.ofMaps ((Tr.init doc).run S sts).maps).map p 1 = some r ∧ l ≤ r := by
+  have hwf : ∀ m ∈ ((Tr.init doc).run S sts).maps, C08.WF 0 m.ranges :=
+    fun m hm => (transform_maps_wf S doc sts hok m hm).2
+  exact ⟨_, _, _, _, mapping_map_eq_mapFold _ p a, mapping_map_eq_mapFold _ q a,
+    mapping_map_mono _ hwf a p q hpq, mapping_map_eq_mapFold _ p (-1), mapping_map_eq_mapFold _ p 1,
+    mapping_left_le_right _ hwf p⟩
+
+/-! ### non-vacuity -/
+
+/-- a history of two maps: delete `[2, 4)`, then insert 3 tokens at 1.  Position 5 (token 4 before
+    it) is outside on the left all the way: it goes to 3, then to 6 -/
+example : OutsideAllL [⟨[(2, 2, 0)], false⟩, ⟨[(1, 0, 3)], false⟩] 5 ∧
+    mapFold [⟨[(2, 2, 0)], false⟩, ⟨[(1, 0, 3)], false⟩] (-1) 5 = 6 := by
+  refine ⟨?_, by decide⟩
+  have e : (StepMap.mk [(2, 2, 0)] false).map 5 (-1) = 3 := by decide
+  simp [OutsideAllL, outside, e]
+
+/-- the two sides differ through a history: position 1 sits at the later insertion point -/
+example :
+    let ms : List StepMap := [⟨[(2, 2, 0)], false⟩, ⟨[(1, 0, 3)], false⟩]
+    mapFold ms (-1) 1 = 1 ∧ mapFold ms 1 1 = 4 ∧
+    (Mapping.ofMaps ms).map 1 (-1) = some 1 ∧ (Mapping.ofMaps ms).map 1 1 = some 4 ∧
+    -- position 3 is inside the deleted range: deleted on both sides
+    ((Mapping.ofMaps ms).mapResult 3 (-1)).map MapResult.deleted = some true ∧
+    ((Mapping.ofMaps ms).mapResult 3 1).map MapResult.deleted = some true ∧
+    coveredFold ms (-1) 3 = true ∧ coveredFold ms 1 3 = true ∧
+    -- position 4, the end of the deleted range: deleted before it, kept after it
+    ((Mapping.ofMaps ms).mapResult 4 (-1)).map MapResult.deleted = some true ∧
+    ((Mapping.ofMaps ms).mapResult 4 1).map MapResult.deleted = some false ∧
+    coveredFold ms (-1) 4 = true ∧ coveredFold ms 1 4 = false := by
+  decide
+
+/-- a real step with a non-empty gap satisfies the right-side guard; the hypotheses of
+    `step_deleted_iff` are satisfiable for both sides -/
+example : AroundWF (Step.replaceAround 1 6 2 5 ⟨[.elem 0 [] [] []], 0, 0⟩ 1 true) ∧
+    GapSep (Step.replaceAround 1 6 2 5 ⟨[.elem 0 [] [] []], 0, 0⟩ 1 true) := by
+  refine ⟨⟨by decide, by decide, by decide⟩, .inl (by decide)⟩
 
 end PM.C03
